@@ -350,14 +350,22 @@ run_cmd do
                 no_input=True)
         cov = dict(coverage)
         nobl = len(self.obligations)
-        cov.setdefault('obligations', nobl + len(
-            [b for b in self.broken if b.startswith('lean build')]))
-        cov.setdefault('discharged', nobl - len(self.undischarged))
-        cov.setdefault('checker_cmd',
-                       'cd /verif/lean && lake build LbzVerif.Props.%s '
-                       '&& #print axioms on every theorem of the module '
-                       '(tools/vlib.py audit)' % self.pid)
-        cov.setdefault('trusted_base', self.trusted)
+        level = self.level
+        if nobl > 0 or any(b.startswith('lean build') for b in self.broken):
+            cov.setdefault('obligations', nobl + len(
+                [b for b in self.broken if b.startswith('lean build')]))
+            cov.setdefault('discharged', max(nobl - len(self.undischarged),
+                                             0))
+            cov.setdefault('checker_cmd',
+                           'cd /verif/lean && lake build <Props modules of '
+                           '%s> && #print axioms on every theorem of those '
+                           'modules (tools/vlib.py Check.lean/audit)'
+                           % self.pid)
+            cov.setdefault('trusted_base', self.trusted)
+        elif level == 'proof':
+            # no theorem was checked in this run: do not call it a proof
+            level = 'exploration'
+        self.level = level
         cov['theorems'] = self.obligations[:200]
         cov['known_findings_hit'] = self.known_hits
         if self.gen_report:
